@@ -159,6 +159,7 @@ type Damage struct {
 	CorruptZlib      int    // 0 intact; 1 flip a byte in the middle of the zlib stream; 2 truncate the stream; 3 bad zlib header; 4 wrong checksum trailer
 	Encoding         string // "" (from Zlib flag) | "raw" | "zlib" | "lzma" (payload stored in field 4) | "none" (no data field at all)
 	IndexData        []byte // BlobHeader.indexdata (valid, optional) if non-nil
+	BlobHeaderExtra  []byte // appended verbatim to the BlobHeader message: unknown fields a reader must skip (valid)
 	TruncatePayload  int    // >0: drop that many bytes from the end of the uncompressed message before wrapping
 	PayloadOverride  []byte // if non-nil: the uncompressed message bytes are exactly these
 }
@@ -624,7 +625,7 @@ func FileBlock(typ string, payload []byte, useZlib bool, dmg Damage) (out []byte
 		}
 		hdr.varint(3, uint64(int64(ds)))
 	}
-	hdrBytes := hdr.encode(false)
+	hdrBytes := append(hdr.encode(false), dmg.BlobHeaderExtra...)
 
 	out = make([]byte, 4, 4+len(hdrBytes)+len(blobBytes))
 	pre := uint32(len(hdrBytes))
